@@ -216,14 +216,59 @@ Fixpoint split_info (info : bytes) : bytes * bytes :=
   | b :: r => if isspace b then ([], info) else let (a, t) := split_info r in (b :: a, t)
   end.
 
-(* str::trim on the remainder: the model trims the ASCII white space bytes the generator can
-   produce and the Unicode White_Space characters that are single bytes; multi-byte white space in
-   an info string is outside the correspondence domain (see DESIGN trusted base) *)
+(* str::trim on the remainder: Rust trims Unicode White_Space; in UTF-8 these are the six ASCII
+   bytes 09-0d 20 and the sequences c2 85, c2 a0, e1 9a 80, e2 80 80..8a, e2 80 a8, e2 80 a9,
+   e2 80 af, e2 81 9f, e3 80 80 *)
 Definition is_trim_ws (b : byte) : bool :=
   beqb b x20 || beqb b x09 || beqb b x0a || beqb b x0b || beqb b x0c || beqb b x0d.
-Fixpoint ltrim_ws (s : bytes) : bytes :=
-  match s with b :: r => if is_trim_ws b then ltrim_ws r else s | [] => [] end.
-Definition trim_ws (s : bytes) : bytes := rev (ltrim_ws (rev (ltrim_ws s))).
+
+Definition ws3 (b0 b1 b2 : byte) : bool :=
+  (beqb b0 xe1 && beqb b1 x9a && beqb b2 x80) ||
+  (beqb b0 xe2 && beqb b1 x80 && (in_range 128 138 b2 || beqb b2 xa8 || beqb b2 xa9 || beqb b2 xaf)) ||
+  (beqb b0 xe2 && beqb b1 x81 && beqb b2 x9f) ||
+  (beqb b0 xe3 && beqb b1 x80 && beqb b2 x80).
+Definition ws2 (b0 b1 : byte) : bool := beqb b0 xc2 && (beqb b1 x85 || beqb b1 xa0).
+
+(* number of bytes of a white-space character at the head of s (0 = none) *)
+Definition ws_len (s : bytes) : nat :=
+  match s with
+  | [] => 0
+  | b0 :: r0 =>
+    if is_trim_ws b0 then 1
+    else match r0 with
+         | [] => 0
+         | b1 :: r1 =>
+           if ws2 b0 b1 then 2
+           else match r1 with
+                | [] => 0
+                | b2 :: _ => if ws3 b0 b1 b2 then 3 else 0
+                end
+         end
+  end.
+(* the same at the head of a REVERSED string *)
+Definition ws_len_rev (s : bytes) : nat :=
+  match s with
+  | [] => 0
+  | b0 :: r0 =>
+    if is_trim_ws b0 then 1
+    else match r0 with
+         | [] => 0
+         | b1 :: r1 =>
+           if ws2 b1 b0 then 2
+           else match r1 with
+                | [] => 0
+                | b2 :: _ => if ws3 b2 b1 b0 then 3 else 0
+                end
+         end
+  end.
+Fixpoint trim_with (len : bytes -> nat) (fuel : nat) (s : bytes) : bytes :=
+  match fuel with
+  | O => s
+  | S f => match len s with O => s | n => trim_with len f (skipn n s) end
+  end.
+Definition trim_ws (s : bytes) : bytes :=
+  let l := trim_with ws_len (List.length s) s in
+  rev (trim_with ws_len_rev (List.length l) (rev l)).
 
 Definition sort_attrs3 (a : list (bytes * attr)) : list attr :=
   (* attributes sorted by name; the names that can occur are known and few, so insertion sort by
